@@ -513,6 +513,20 @@ func (p Prop) concurrent(c *Case) (*runResult, error) {
 		warm(e.DB, s)
 	}
 	pool.Sched = s
+	// one *sql.DB per task (up to the number of programs plus spawned helpers)
+	// (not in prepared-statement mode: a *sql.Stmt belongs to the *sql.DB that prepared it)
+	var extra []*sql.DB
+	if !c.Prepare {
+		for range c.Tasks {
+			extra = append(extra, sql.OpenDB(e.Drv.Connector()))
+		}
+		pool.PerTask = extra
+	}
+	defer func() {
+		for _, d := range extra {
+			d.Close()
+		}
+	}()
 	e.Drv.Cur = s.Cur
 	s.OnAbort = func() { pool.Abort(); e.Drv.Passive = true }
 	installHooks(s)
@@ -554,8 +568,12 @@ func (p Prop) concurrent(c *Case) (*runResult, error) {
 			rr.trouble = "engine lock error: " + ev.Kind + " " + ev.SQL + ": " + ev.Err
 		}
 	}
-	if n := e.Pool.Stats().InUse; n != 0 {
-		rr.leak = fmt.Sprintf("sql.DB.Stats().InUse=%d", n)
+	inUse := e.Pool.Stats().InUse
+	for _, d := range extra {
+		inUse += d.Stats().InUse
+	}
+	if inUse != 0 {
+		rr.leak = fmt.Sprintf("sql.DB.Stats().InUse=%d", inUse)
 	}
 	if oc := simdrv.CountOpen(evs); oc.OpenTx != 0 || oc.OpenRows != 0 {
 		rr.leak += fmt.Sprintf(" open tx=%d rows=%d", oc.OpenTx, oc.OpenRows)
